@@ -124,12 +124,12 @@ var KnownSigs = map[string]bool{}
 
 // World is one simulated execution.
 type World struct {
-	Cfg  *Config
-	Sch  *choice.Seq // schedule, faults, third-party choices
-	Scn  *choice.Seq // scenario generation
-	C    *store.Counters
-	Mgmt *store.Cluster
-	Host *store.Cluster // nil unless the scenario uses a hosted cluster
+	Cfg   *Config
+	Sch   *choice.Seq // schedule, faults, third-party choices
+	Scn   *choice.Seq // scenario generation
+	C     *store.Counters
+	Mgmt  *store.Cluster
+	Host  *store.Cluster // nil unless the scenario uses a hosted cluster
 	Procs []*Process
 
 	Mapper meta.RESTMapper
@@ -150,19 +150,20 @@ type World struct {
 	Scenario *Scenario
 	agents   []Agent
 
-	sticky   *Actor
-	phase    int // phaseDisturbed, phaseCalm
-	rr       int // round-robin cursor of the fair scheduler
-	trace    []string
-	stepNo   int
-	failed   error // machinery trouble
-	epoch    int
-	stopNow  bool
-	LogHash  uint64
-	envForce bool
-	zombies  []*Actor
-	Taint    map[string]string // object key -> cause tag set by a monitor (e.g. stale takeover)
-	extra    map[string]any
+	sticky     *Actor
+	phase      int // phaseDisturbed, phaseCalm
+	rr         int // round-robin cursor of the fair scheduler
+	trace      []string
+	stepNo     int
+	failed     error // machinery trouble
+	epoch      int
+	stopNow    bool
+	LogHash    uint64
+	envForce   bool
+	zombies    []*Actor
+	sweepCount int
+	Taint      map[string]string // object key -> cause tag set by a monitor (e.g. stale takeover)
+	extra      map[string]any
 }
 
 const (
